@@ -1231,6 +1231,12 @@ class Var(ArrayReduction):
             result = moment_agg(vals, sum=np.nansum, ddof=ddof, axis=(0,))
         else:
             result = moment_agg(vals, ddof=ddof, axis=(0,))
+        # pandas returns NaN unless there are more observations than ``ddof``;
+        # the array reduction divides by ``n - ddof == 0`` there (+-inf)
+        n = sum(v["n"] for v in vals).sum(axis=0)
+        if np.ndim(result) == 0:
+            return result if n > ddof else result * np.nan
+        result[n <= ddof] = np.nan
         return result
 
 
